@@ -39,6 +39,7 @@ EXPLANATION = (
   ' (LOOP-break) no loop over the items of a collection is left by a branch that does nothing but `break` on a test about the item (end-of-input sentinels, flags set in the loop body and searches whose variable is read afterwards excepted): an item that is to be skipped does not end the processing of the items after it;'
   ' (FIN-haspx) each has_px() over a style value with several lengths (extent, origin, padding, position), evaluated with exactly one length in px and with none, reports px exactly when some length is in px;'
   ' (FIN-wholeframes) as in C12: frame syntaxes are written from the whole number of complete frames, so no frame field reaches the frame rate;'
+  ' (AGREE-framerate) ttp:frameRate is written for every time expression syntax under which to_time_format uses the frame rate;'
 )
 RULE_TEXT = "per element kind, per style property, per Enum member, per special-value access, per time syntax sample"
 UNDECIDED = ["snapshot equality after re-reading", "numeric precision of written lengths (:g formatting)", "font-family quoting round trip", "times move by less than one unit and never change order"]
@@ -686,6 +687,63 @@ def check_px_scan(ctx):
             "the pixel-length scan no longer covers all regions and all elements of the body")
 
 
+def check_frame_rate_written(ctx):
+  """AGREE-framerate: the reader interprets frame-based time expressions with ttp:frameRate (30 when absent).  For every time
+  expression syntax under which to_time_format uses the frame rate (decided by following its path for that syntax), the
+  conditions that lead to FrameRateAttribute.set in TTElement.from_model, evaluated for that syntax with a frame rate
+  given, must hold."""
+  from fractions import Fraction as F
+  from ..consteval import EnumMember, NotConst
+  from ..rules import match
+  ix = ctx.ix
+  tf = ix.func("ttconv.imsc.attributes:to_time_format")
+  w = ix.func(f"{EL}:TTElement.from_model")
+  ctx.unit(tf.module)
+  enum = next((c for c in ix.classes.values() if c.name == "TimeExpressionSyntaxEnum"), None)
+  if enum is None:
+    raise AnalysisError("TimeExpressionSyntaxEnum not found")
+  ce = ConstEval(ix, symbolic_ok=False)
+  members = {name: EnumMember(enum.qualname, name, ConstEval(ix).try_ev(enum.module, v, enum)) for name, v in ix.enum_members(enum)}
+  cparam = tf.params[0]
+  uses = {}
+  for name, mem in members.items():
+    def decide(test, mem=mem):
+      t2 = match.replace_exprs([ast.Expr(test)], {f"{cparam}.time_expression_syntax": "__syntax", f"{cparam}.frame_rate": "__rate"})[0].value
+      try:
+        return bool(ce.ev(tf.module, t2, None, {"__syntax": mem, "__rate": F(25)}))
+      except NotConst as e:
+        raise match.PathUndecided(str(e))
+    try:
+      kind, val = match.path_result(tf.node, decide)
+    except match.PathUndecided as e:
+      raise AnalysisError(f"to_time_format: the path for syntax {name} cannot be followed ({e})")
+    uses[name] = kind == "return" and val is not None and "frame_rate" in unparse(val)
+  sets = [c for c in own_nodes(w.node) if isinstance(c, ast.Call) and unparse(c.func).endswith("FrameRateAttribute.set")]
+  if len(sets) != 1:
+    raise AnalysisError(f"TTElement.from_model: expected one FrameRateAttribute.set call, found {len(sets)}")
+  # parameter names of from_model that carry the rate and the syntax
+  rate_p = next((p_ for p_ in w.params if "rate" in p_), None)
+  syn_p = next((p_ for p_ in w.params if "syntax" in p_ or "format" in p_), None)
+  if rate_p is None or syn_p is None:
+    raise AnalysisError("TTElement.from_model: the frame-rate / syntax parameters were not identified")
+  conds = match.reaching_conditions(sets[0], w.node)
+  conds = [(t, pol) for (t, pol) in conds if {x.id for x in ast.walk(t) if isinstance(x, ast.Name)} & {rate_p, syn_p}]
+  n = 0
+  for name, mem in members.items():
+    if not uses[name]:
+      continue
+    n += 1
+    try:
+      written = all(bool(ce.ev(w.module, t, w.cls, {rate_p: F(25), syn_p: mem})) == pol for (t, pol) in conds)
+    except NotConst as e:
+      raise AnalysisError(f"TTElement.from_model: the condition of FrameRateAttribute.set leaves the evaluable subset ({e})")
+    ctx.check(written, "AGREE-framerate", f"{w.qualname}|ttp:frameRate written for {name}", ctx.where(w.module, sets[0]),
+              f"to_time_format uses the frame rate for `{name}` and from_model writes ttp:frameRate for it",
+              f"time expressions are written with the configured frame rate for the syntax `{name}`, but ttp:frameRate is not written for it "
+              f"(condition `{' and '.join(short(t, 40) for t, _ in conds)}`): the reader falls back to 30 fps and shifts or rejects every time")
+  ctx.floor("AGREE-framerate", "syntaxes that use the frame rate", n, 2)
+
+
 def check_has_px(ctx):
   """FIN-haspx: a style value with several lengths uses pixels if ANY of its lengths does.  For every has_px() whose
   parameter is annotated with a dataclass of style_properties.py that has two or more LengthType fields, the method is
@@ -739,6 +797,7 @@ def run(ctx):
   check_doc_params(ctx)
   check_px_scan(ctx)
   check_has_px(ctx)
+  check_frame_rate_written(ctx)
   from . import c12 as _c12w
   _c12w.check_whole_frames(ctx)
   check_special_emission(ctx)
